@@ -64,6 +64,7 @@ type Case struct {
 	Root    []byte // DER of the root of trust to install (empty: Intel's)
 	AttRak  []byte // if set: also run node.SGXAttestation.Verify with this RAK ...
 	AttOK   []byte // ... and these allowed enclave identities (64 bytes each: MRENCLAVE || MRSIGNER)
+	Unbound []string // generator note: documented-unbound fields this input deviates in (not serialised)
 	Sec     int64
 	Nsec    int64
 }
@@ -863,6 +864,25 @@ func specCheck(c *Case, o *implOut, f *facts) (sig, detail string) {
 	if !strings.HasPrefix(o.res, "accept:") {
 		return "", ""
 	}
+	if o.att == "ok" {
+		// node registration: the verified identity is allowed and the report data carries H(RAK)
+		parts := strings.Split(o.res, ":")
+		var rak signature.PublicKey
+		copy(rak[:], c.AttRak)
+		rh := node.HashRAK(rak)
+		if len(parts) != 4 || !strings.HasPrefix(parts[3], hex.EncodeToString(rh[:])) {
+			return "attestation-accepted-wrong-rak", "report data of the verified quote does not start with the hash of the RAK"
+		}
+		found := false
+		for i := 0; i+64 <= len(c.AttOK); i += 64 {
+			if hex.EncodeToString(c.AttOK[i:i+32]) == parts[1] && hex.EncodeToString(c.AttOK[i+32:i+64]) == parts[2] {
+				found = true
+			}
+		}
+		if !found {
+			return "attestation-accepted-wrong-identity", "verified enclave identity is not among the allowed ones"
+		}
+	}
 	// (1) The result is the one of a genuine recorded quote whose header and body are carried.
 	genuine := false
 	for _, v := range vectors {
@@ -873,10 +893,15 @@ func specCheck(c *Case, o *implOut, f *facts) (sig, detail string) {
 			}
 		}
 	}
-	if want, ok := synthGenuine[hex.EncodeToString(append(append([]byte{}, f.parts.HeaderRaw...), f.parts.BodyRaw...))]; ok && !genuine {
-		genuine = true
-		if o.res != want {
+	if len(c.Root) > 0 && !genuine {
+		// Synthetic root of trust: only the harness can sign under it, so a quote whose links all
+		// verify is harness-made; the result must be the function of its report body.
+		genuine = f.allLinks
+		if want := expectedFromBody(f.parts.BodyKind, f.parts.BodyRaw); genuine && o.res != want {
 			return "accepted-mutant-different-result", fmt.Sprintf("accepted with %s, the signed report body determines %s", o.res, want)
+		}
+		if want, ok := synthGenuine[hex.EncodeToString(append(append([]byte{}, f.parts.HeaderRaw...), f.parts.BodyRaw...))]; ok && o.res != want {
+			return "accepted-mutant-different-result", fmt.Sprintf("accepted with %s, the generator signed %s", o.res, want)
 		}
 	}
 	if !genuine {
@@ -943,6 +968,21 @@ func specCheck(c *Case, o *implOut, f *facts) (sig, detail string) {
 		return "accepted-foreign-collateral", "collateral of the other TEE type accepted"
 	}
 	return "", ""
+}
+
+// expectedFromBody is what the property demands to be returned for a signed report body.
+func expectedFromBody(kind string, body []byte) string {
+	if kind == "td" && len(body) == 584 {
+		th := tuplehash.New256(32, []byte(pcs.TdEnclaveIdentityContext))
+		for _, off := range []int{136, 328, 376, 424, 472} {
+			_, _ = th.Write(body[off : off+48])
+		}
+		return fmt.Sprintf("accept:%s:%s:%s", hx(th.Sum(nil)), hx(make([]byte, 32)), hx(body[520:584]))
+	}
+	if kind == "sgx" && len(body) == 384 {
+		return fmt.Sprintf("accept:%s:%s:%s", hx(body[64:96]), hx(body[128:160]), hx(body[320:384]))
+	}
+	return "?"
 }
 
 func bigNs(t time.Time) *big.Int {
@@ -1147,10 +1187,20 @@ func (rn *runner) add(c *Case) {
 		rn.res.Fail(hlib.Failure{Kind: "panic", Detail: "pcs verification panicked: " + o.panicked, Case: []string{c.Line()}, Sig: "panic"})
 		return
 	}
+	if o.att != "" {
+		rn.res.Count("attestation:" + o.att)
+	}
 	if o.parseErr != "" {
 		rn.res.Count("impl:reject:parse:" + parseClass(o.parseErr))
 	} else if strings.HasPrefix(o.res, "accept:") {
 		rn.res.Count("impl:accept")
+		for _, u := range c.Unbound {
+			rn.res.Count("observed:accepted-despite-unbound-" + u)
+			if rn.emitDir != "" && len(c.Unbound) == 1 && !rn.emitted["unbound-"+u] {
+				rn.emitted["unbound-"+u] = true
+				_ = os.WriteFile(rn.emitDir+"/observed-unbound-"+u+".txt", []byte("# accepted although the input deviates in the documented-unbound field "+u+"\n"+c.Line()+"\n"), 0o644)
+			}
+		}
 	} else {
 		rn.res.Count("impl:" + o.res)
 		if strings.HasSuffix(o.res, ":?") {
@@ -1217,6 +1267,11 @@ func (rn *runner) flush() {
 			o := rn.impls[i]
 			kind, sig := "divergence", "model-mismatch"
 			switch {
+			case has(a, "attestation"):
+				sig = "attestation-mismatch:" + strings.TrimPrefix(strings.Join(strings.Fields(a)[1:], "/"), "attestation/")
+				if o.att == "ok" {
+					kind = "spec"
+				}
 			case has(a, "parse"):
 				sig = "parse-mismatch"
 			case strings.HasPrefix(o.res, "accept:") && has(a, "model=reject:"):
